@@ -45,7 +45,28 @@ func RunWith(childMode, in, out string, extra []string, perScenario time.Duratio
 	w := bufio.NewWriterSize(of, 1<<20)
 	defer w.Flush()
 	lines, done, part := 0, 0, 0
+	// scenarios that ended by wedging or hanging the process under test cost a watchdog period each: after a few of
+	// them the remaining ones are recorded as not replayed ("skipped") - the verdict is there, the rest would take hours
+	wedges := 0
 	for done < total {
+		if wedges >= MaxWedges {
+			for ; done < total; done++ {
+				scn := done + 1
+				nb := lines + 4
+				begin := map[string]any{"ev": "Begin", "scn": scn}
+				for k, v := range crashBegin {
+					begin[k] = v
+				}
+				for _, e := range []map[string]any{begin, {"ev": "skipped", "scn": scn}, {"ev": "End", "scn": scn}} {
+					e["nb"] = nb
+					j, _ := json.Marshal(e)
+					w.Write(j)
+					w.WriteByte('\n')
+				}
+				lines += 3
+			}
+			break
+		}
 		part++
 		pf := fmt.Sprintf("%s.part%d", out, part)
 		args := append([]string{childMode, "-in", in, "-out", pf, "-skip", fmt.Sprint(done)}, extra...)
@@ -109,7 +130,11 @@ func RunWith(childMode, in, out string, extra []string, perScenario time.Duratio
 		}
 		txt := stderr.String()
 		if strings.Contains(txt, "wedged: restarting") && !killed {
+			wedges++
 			continue // the child recorded the wedged run itself and asked for a fresh process
+		}
+		if killed || strings.Contains(txt, "panic: watchdog:") {
+			wedges++
 		}
 		// the scenario in flight crashed (or hung) the process
 		if i := strings.Index(txt, "panic:"); i >= 0 {
@@ -143,6 +168,9 @@ func RunWith(childMode, in, out string, extra []string, perScenario time.Duratio
 	}
 	return lines, nil
 }
+
+// MaxWedges is the number of wedged / hung scenarios after which the rest is recorded as skipped.
+var MaxWedges = 4
 
 // Guard makes the process exit like a crashed one unless the returned function is called within d:
 // a scenario that wedges the code under test (a deadlock) becomes a recorded outcome of that scenario.
